@@ -308,6 +308,7 @@ func oracleC10(r *Result, run *sessionRun, pipelined bool) {
 	if got < want {
 		violation(r, "a well-formed request on a connection that sent nothing malformed before it was not answered", run, fmt.Sprintf("%d responses", want), fmt.Sprintf("%d responses", got))
 	}
+	stalledPeerDropped(r, run)
 }
 
 // expectedAnswered: how many of the connection's leading requests the property says are answered, from the script alone
@@ -384,6 +385,22 @@ func oracleC15(r *Result, run *sessionRun, pipelined bool) {
 			}
 		}
 	}
+	stalledPeerDropped(r, run)
+}
+
+// stalledPeerDropped: a peer that went silent in the middle of a message (and stays connected) is disconnected BY THE SERVER
+// when the read deadline expires - not only once the peer gives up
+func stalledPeerDropped(r *Result, run *sessionRun) {
+	if !run.cfg.rt || run.cfg.sa == "fail" || len(run.arrs) == 0 {
+		return
+	}
+	last := run.arrs[len(run.arrs)-1]
+	if last.kind == 'E' && last.how == "stall" && !run.peerClosed && !run.serverClosedFirst {
+		// only if the session got as far as the stalling message: every earlier arrival must have been answered
+		if expectedAnswered(run.cfg, run.arrs) == len(run.arrs)-1 {
+			violation(r, "a peer that went silent inside a message was still connected 8 s later although ReadTimeout is set (the deadline did not end the session)", run, "closed by the server at the read deadline", strings.Join(run.trace, ";"))
+		}
+	}
 }
 
 func sessRule(extra string) string {
@@ -405,6 +422,7 @@ func init() {
 		r.Rule = sessRule("C07 oracle: one response per request in order echoing version/correlation/batch count/operations/IDs with a current timestamp, else close; no later request processed first.")
 		b, p := sizes(tier)
 		sessionCorrespondence(r, d, seed*31+7, b, p, scriptOpts{maxArr: 8, maxItems: 5}, 150*time.Millisecond, oracleC07)
+		c07Timestamp(r)
 	}
 	props["C08"] = func(r *Result, d *drv.Driver, tier string, seed int64, replay string) {
 		r.Rule = sessRule("C08 oracle: each registered item invoked exactly once in order with its payload; each item's status/reason/message/payload is its own handler's outcome; the process survives (all runs are in-process); plus batches in which a handler panics with values hostile to rendering (panicking Error/String methods, typed nil errors).")
@@ -434,5 +452,6 @@ func init() {
 		sessionCorrespondence(r, d, seed*31+15, b, p, scriptOpts{maxArr: 8, maxItems: 2, allowStall: true}, 60*time.Millisecond, oracleC15)
 		c15TLS(r)
 		c15Client(r)
+		c15Partial(r)
 	}
 }
